@@ -600,6 +600,42 @@ func (e *Env) evalCall(x *Expr) SVal {
 	case "inv":
 		v := e.eval(x.Args[0])
 		return SVal{S: e.typeInv(v, x), Sort: "Bool"}
+	case "moninv": // conjunction of the monitor invariants of x's type, for object x
+		v := e.eval(x.Args[0])
+		n, ok := derefNamed(e.resolveT(v.T))
+		if !ok {
+			e.errf(x, "moninv of a non-named type")
+		}
+		ts := t.eng.specs.Types[typeName(n.Origin())]
+		if ts == nil || len(ts.Monitors) == 0 {
+			e.errf(x, "type has no monitor")
+		}
+		var cs []string
+		for _, m := range ts.Monitors {
+			mr := &monRef{ts: ts, mon: m}
+			for _, inv := range m.Inv {
+				me := t.monEnv(mr, v.S)
+				me.st, me.old = e.st, e.old
+				cs = append(cs, me.evalBool(inv.E))
+			}
+		}
+		return SVal{S: and(cs...), Sort: "Bool"}
+	case "mytok": // mytok(obj, name): tokens of that name this thread holds for obj's monitor
+		v := e.eval(x.Args[0])
+		n, ok := derefNamed(e.resolveT(v.T))
+		if !ok || x.Args[1].Op != "id" {
+			e.errf(x, "mytok(obj, tokenname)")
+		}
+		_, mine := t.tokComps(tshort(typeName(n.Origin())), x.Args[1].Name)
+		return SVal{S: e.inState(func() string { return app("select", t.get(mine), v.S) }), Sort: "Int"}
+	case "mydebt": // notification debts this thread holds for a condition variable field
+		vf := e.eval(x.Args[0])
+		if vf.P == nil || vf.P.Kind != "field" {
+			e.errf(x, "mydebt needs a condition variable field")
+		}
+		tn, f, _ := compParts(vf.P.Comp)
+		_, _, dc := t.condComps(tn, f)
+		return SVal{S: e.inState(func() string { return app("select", t.get(dc), vf.P.Ref) }), Sort: "Int"}
 	case "held", "rheld":
 		// held(x.mu): write-held; rheld: read- or write-held
 		lc, ref := e.lockComp(x.Args[0])
